@@ -154,4 +154,9 @@ class RayGenerator:
         """
         z = self.optic.surface_group.positions[1:-1]
         offset = self.optic.paraxial.EPD()
+        # a first surface that is concave towards the object reaches in front
+        # of its vertex by at most |R|: start in front of that, too
+        radius = self.optic.surface_group.surfaces[1].geometry.radius
+        if np.isfinite(radius) and radius < 0:
+            offset = offset + abs(radius)
         return offset - np.min(z)
